@@ -27,6 +27,42 @@ theorem tidy_prun {c : PConfig} (sched : List PMove) (h : c.Tidy) : (prun c sche
     | none => simpa using h
     | some c' => simpa using tidy_step h hs
 
+/-- an adapter that has returned offers nothing -/
+def AConfig.ATidy (a : AConfig) : Prop := a.aDone = true → a.hold = false
+
+theorem atidy_step {a a' : AConfig} {m : AMove} (h : a.ATidy) (hs : astep a m = some a') : a'.ATidy := by
+  unfold AConfig.ATidy at *
+  cases m with
+  | pipe pm =>
+    simp only [astep] at hs
+    split at hs
+    · cases hs
+    · cases hp : pstep a.p pm with
+      | none => simp [hp] at hs
+      | some p' => simp [hp] at hs; subst hs; exact h
+  | aRecv =>
+    simp only [astep] at hs
+    split at hs
+    · rename_i hg
+      cases hp : pstep a.p .consume with
+      | none => simp [hp] at hs
+      | some p' => simp [hp] at hs; subst hs; intro hd; simp [hg.1] at hd
+    · cases hs
+  | aSend =>
+    simp only [astep] at hs
+    split at hs
+    · simp only [Option.some.injEq] at hs; subst hs; intro _; rfl
+    · cases hs
+  | aExitIn =>
+    by_cases hg : a.aDone = false ∧ a.hold = false ∧ a.p.outClosed = true ∧
+        (if a.p.hasPid then a.p.pidQ = [] else a.p.fwQ = [])
+    · simp only [astep, hg, and_self, if_true, Option.some.injEq] at hs; subst hs; intro _; first | rfl | exact hg.2.1
+    · simp only [astep, hg, if_false] at hs; cases hs
+  | aExitCtx =>
+    by_cases hg : a.watchesCtx = true ∧ a.aDone = false ∧ a.hold = true ∧ a.p.cancelled = true
+    · simp only [astep, hg, and_self, if_true, Option.some.injEq] at hs; subst hs; intro _; rfl
+    · simp only [astep, hg, if_false] at hs; cases hs
+
 /-- the excess stage returns only after its input, the bus channel, was closed -/
 def PConfig.ExOrder (c : PConfig) : Prop := c.exDone = true → c.inClosed = true
 
@@ -37,6 +73,24 @@ theorem exOrder_step {c c' : PConfig} {m : PMove} (h : c.ExOrder) (hs : pstep c 
       | (simp only [Option.some.injEq] at hs; subst hs
          simp only [PConfig.ExOrder, fwRecv, exRecv, pidRecv] at *
          (repeat' split) <;> simp_all)
+
+/-- nothing of a subscription ends by itself: the bus channel is closed only after the cancel, the forwarder returns
+only after the cancel (or the close, which comes after it), and — code after fix 0f3ccd4 — when the PullID goroutine
+has returned the (child) context is cancelled -/
+def PConfig.Causal (c : PConfig) : Prop :=
+  (c.inClosed = true → c.cancelled = true) ∧ (c.exDone = true → c.inClosed = true) ∧
+  (c.fwDone = true → c.cancelled = true) ∧ (c.fixed = true → c.pidDone = true → c.cancelled = true)
+
+theorem causal_step {c c' : PConfig} {m : PMove} (h : c.Causal) (hs : pstep c m = some c') :
+    c'.Causal ∧ c'.fixed = c.fixed := by
+  obtain ⟨h1, h2, h3, h4⟩ := h
+  cases m <;> simp only [pstep] at hs <;> (repeat' (split at hs)) <;>
+    first
+      | (cases hs; done)
+      | (simp only [Option.some.injEq] at hs; subst hs
+         simp only [PConfig.Causal, PConfig.fwInClosed, fwRecv, exRecv, pidRecv] at *
+         (repeat' split) <;> simp_all <;>
+           (rename_i hg; obtain ⟨_, _, hg⟩ := hg; split at hg <;> simp_all))
 
 /-- the watcher goroutine, once started, is never "not started" again -/
 theorem wpc_ne_none_next (c : Config) (m : Move) (l : Nat) :
